@@ -288,6 +288,12 @@ async def run_line(world, raw, line_bytes, payload=b"", wft=None):
     e0 = world.log.exceptions
     raw.send_raw(line_bytes + b"\r\n")
     await loop.settle()
+    # a reply may legitimately take (virtual) time: wait for the final reply, not just for quiescence
+    waited = 0.0
+    while waited < 4.0 and not raw.eof and not any(not c.startswith("1") for c, _ in raw.replies[n0:]) and world.connection_of(raw) is not None:
+        await asyncio.sleep(0.25)
+        waited += 0.25
+        await loop.settle()
     new = raw.replies[n0:]
     codes = [int(c) if c.isdigit() else -1 for c, _ in new]
     out = b""
